@@ -6,16 +6,16 @@ from .tables import is_true, is_false
 from . import c05
 
 EXPLANATION = (
-    'Static clauses: (R1) both caches are probed and filled under the same key term, built from the position key of'
-    ' the board argument and the colour argument of the query, and what is stored is exactly what is returned; (R2)'
-    ' everything move generation and attack generation read from the board (transitive field read-set of the call '
-    'graph of generate_valid_moves / generate_attack_targets, cut at ChessMove::apply/undo) is covered by the '
-    "position key or by the key's colour component: piece sets, castle-rights stack top, en-passant stack top - and"
-    ' nothing else (no turn, clocks or repetition state); (R3) the position key depends on the stack tops only and '
-    'placement / stacks change only through their owner methods, which toggle it (imports C05.R1-R5 incl. who-may-'
-    "write: no `&mut PieceSet` outside the board module, no in-place piece swap behind the key's back); (R4) no "
-    'other mutable state of the generator can reach an answer: its remaining fields are written only at '
-    'construction. 64-bit key collisions between different positions and LRU eviction are NOT decided.'
+    'Static clauses: (R1) both caches are probed and filled under the same key term, built from the position key of the board argument '
+    'and the colour argument of the query, and what is stored is exactly what is returned; (R2) everything move generation and attack '
+    'generation read from the board (transitive field read-set of the call graph of generate_valid_moves / generate_attack_targets, cut'
+    " at ChessMove::apply/undo) is covered by the position key or by the key's colour component: piece sets, castle-rights stack top, "
+    'en-passant stack top - and nothing else (no turn, clocks or repetition state); (R3) the position key depends on the stack tops '
+    'only and placement / stacks change only through their owner methods, which toggle it (imports C05.R1-R5 incl. who-may-write: no '
+    "`&mut PieceSet` outside the board module, no in-place piece swap behind the key's back); (R4) no other mutable state of the "
+    'generator can reach an answer: its remaining fields are written only at construction. 64-bit key collisions between different '
+    'positions and LRU eviction are NOT decided. R4 does not count a function that only asks a cache for its size (len / is_empty / '
+    'capacity on a shared borrow that flows nowhere else) as a user of the cache.'
 )
 ASSUMPTIONS = [
     "LruCache::get/put and HashMap::get/insert return what was stored under an equal key",
